@@ -37,7 +37,7 @@ _TMP = None
 def tmpdir():
     global _TMP
     if _TMP is None:
-        _TMP = tempfile.mkdtemp(prefix="c20-")
+        _TMP = tempfile.mkdtemp(prefix="c20-", dir=os.environ.get("VERIF_SCRATCH") or None)
         atexit.register(shutil.rmtree, _TMP, True)
     return _TMP
 
